@@ -16,8 +16,9 @@ From NV Require Import Hostile.Panics Hostile.PanicsProofs.
 From NV Require Sam.Lazy Text.TextBase Text.Gff Text.GffLine Text.Gtf Text.GtfLine Text.BedRec
   Text.BedRecProofs Vcf.Span Vcf.SpanProofs Bgzf.Frame Bgzf.Reader Bgzf.Inflate Bgzf.InflateFuel
   Bam.Record Bam.Decode Bam.Lazy Cram.Itf8 Cram.Ltf8 Cram.Vlq Cram.Nx16Xform Cram.Nx16XformProofs
-  Index.Layout Bcf.Record.
-From NV Require Hostile.TotalSam Hostile.TotalText Hostile.TotalBin Hostile.TotalBam Hostile.TotalBcf.
+  Index.Layout Bcf.Typed Bcf.Record.
+From NV Require Index.CsiLayout Index.TextIndex.
+From NV Require Hostile.TotalSam Hostile.TotalText Hostile.TotalBin Hostile.TotalBam Hostile.TotalBcf Hostile.TotalIdx.
 Import ListNotations.
 Open Scope N_scope.
 
@@ -319,6 +320,41 @@ Theorem c15_bai_read_bounded : forall bs i,
 Proof. exact NV.Hostile.TotalBin.read_bai_bounded. Qed.
 Print Assumptions c15_bai_read_bounded.
 
+(* tabix: 36 = magic + n_ref + the 28 fixed header bytes; 8 bytes per reference, bin and interval,
+   16 per chunk *)
+Theorem c15_tbi_read_bounded : forall bs i,
+  NV.Index.CsiLayout.read_tbi bs = Some i ->
+  (36 + 8 * length (NV.Index.CsiLayout.ti_refs i) <= length bs)%nat /\
+  (36 + NV.Hostile.TotalBin.bai_items (NV.Index.CsiLayout.ti_refs i) <= length bs)%nat.
+Proof. exact NV.Hostile.TotalIdx.read_tbi_bounded. Qed.
+Print Assumptions c15_tbi_read_bounded.
+
+(* CSI: 4 bytes per reference (and 16 per bin inside a reference: p_csi_ref_consumes); an accepted
+   index always carries a geometry that max_position accepts (min_shift > 0, depth <= 10), which is
+   the precondition under which c15_csi_query_total needs no error branch *)
+Theorem c15_csi_read_bounded : forall bs i,
+  NV.Index.CsiLayout.read_csi bs = Some i ->
+  (20 + 4 * length (NV.Index.CsiLayout.ci_refs i) <= length bs)%nat /\
+  NV.Index.CsiLayout.ci_ms i <> 0 /\ (NV.Index.CsiLayout.ci_depth i <= 10)%nat.
+Proof. exact NV.Hostile.TotalIdx.read_csi_bounded. Qed.
+Print Assumptions c15_csi_read_bounded.
+
+Theorem c15_csi_ref_bounded : forall d bs x r,
+  NV.Index.CsiLayout.p_csi_ref d bs = Some (x, r) ->
+  (4 + 16 * length (NV.Index.CsiLayout.cr_bins x) + length r <= length bs)%nat.
+Proof. exact NV.Hostile.TotalIdx.p_csi_ref_consumes. Qed.
+Print Assumptions c15_csi_ref_bounded.
+
+(* fai / crai line loop: the model's fuel is never the reason of a result *)
+Theorem c15_text_index_fuel : forall f bs, (length bs < f)%nat ->
+  NV.Index.TextIndex.read_lines f NV.Index.TextIndex.parse_fai_rec bs = NV.Index.TextIndex.read_fai bs /\
+  NV.Index.TextIndex.read_lines f NV.Index.TextIndex.parse_crai_rec bs = NV.Index.TextIndex.read_crai bs.
+Proof.
+  intros f bs H. split;
+  [exact (NV.Hostile.TotalIdx.read_fai_fuel f bs H) | exact (NV.Hostile.TotalIdx.read_crai_fuel f bs H)].
+Qed.
+Print Assumptions c15_text_index_fuel.
+
 (* ---- (12) BCF: the eager record decoder's counts are bounded by the bytes present ------------- *)
 
 Theorem c15_bcf_fields_bounded : forall m mult dup n bs l r,
@@ -333,6 +369,20 @@ Theorem c15_bcf_record_bounded : forall strings contigs bs h infos fmts rest,
   length infos = Z.to_nat (NV.Bcf.Record.h_n_info h) /\ length fmts = Z.to_nat (NV.Bcf.Record.h_n_fmt h).
 Proof. exact NV.Hostile.TotalBcf.dec_record_bounded. Qed.
 Print Assumptions c15_bcf_record_bounded.
+
+(* REFUTATION of "bounded recursion depth" for the BCF typed descriptor (finding
+   stack-bcf-typed-length-nesting): the descriptor 0xf1^n 0x11 0x01^n is ACCEPTED (Int8, length 1)
+   and uses recursion depth n + 1 -- C10's model needs fuel n + 1 and fails with fuel n; the real
+   read_type <-> read_value pair spends two stack frames per level and overflows the stack for
+   n ~ 10^5 (reproduced on the crates: cases `nest bcf ids|fmtkey 250000`). *)
+Theorem c15_bcf_read_type_depth_refuted : forall n rest,
+  NV.Bcf.Typed.dec_type (S n) (repeat 241 n ++ 17 :: repeat 1 n ++ rest) = Some (1%Z, 1%Z, rest) /\
+  NV.Bcf.Typed.dec_type n (repeat 241 n ++ 17 :: repeat 1 n ++ rest) = None.
+Proof.
+  intros n rest. split;
+  [apply NV.Hostile.TotalBcf.dec_type_nested_accepts | apply NV.Hostile.TotalBcf.dec_type_nested_needs_depth].
+Qed.
+Print Assumptions c15_bcf_read_type_depth_refuted.
 
 (* the totality statement for the decoders of other properties, in one piece; what is NOT in it is
    listed in checks/C15.json (BCF typed value decoders, CSI/tabix/fai/crai readers, CRAM container
